@@ -214,8 +214,8 @@ def parseFile (env : Env) (l : List Suppr) (data : Str) : Option LineErr × List
 inductive XmlErr
   | expectedSuppress
   | unknownElement
-  | throwLine (e : IntErr)      -- uncaught std::runtime_error from strToInt<int>
-  | throwHash                   -- uncaught std::runtime_error from strToInt<std::size_t>
+  | badLine (e : IntErr)        -- "invalid lineNumber '…'" (an uncaught std::runtime_error before /repo d6d80d1)
+  | badHash                     -- "invalid hash '…'"
   | add (e : AddErr)
   deriving DecidableEq, Repr, Inhabited
 
@@ -249,12 +249,12 @@ def xmlFields (env : Env) : List (Str × Str) → Suppr → Except XmlErr Suppr
     else if name = "lineNumber".toList then
       match strToInt text with
       | .ok n => xmlFields env r { s with lineNumber := n }
-      | .error e => .error (.throwLine e)
+      | .error e => .error (.badLine e)
     else if name = "symbolName".toList then xmlFields env r { s with symbolName := text }
     else if !text.isEmpty && name = "hash".toList then
       match strToSize text with
       | some h => xmlFields env r { s with hash := h }
-      | none => .error .throwHash
+      | none => .error .badHash
     else .error .unknownElement
 
 def parseXml (env : Env) : List (Str × List (Str × Str)) → List Suppr → Option XmlErr × List Suppr
